@@ -192,7 +192,8 @@ impl Space for MemberRep {
             let mut k = 0;
             for vi in 0..nv {
                 let named = ctx.flag();
-                let nf = 1 + ctx.choose(self.max_members.min(3));
+                // 0 fields = a unit variant (variant-level repeats must reach those too - seed C14-07)
+                let nf = ctx.choose(self.max_members.min(3) + 1);
                 let mut fields = vec![];
                 for fi in 0..nf {
                     let (attrs, ev) = member_event(ctx, k, ENUM_CATS, true);
@@ -209,7 +210,7 @@ impl Space for MemberRep {
                     _ => vec![Instr::new("repeat", None, "map"), Instr::new("map", Some("T"), &format!("X{}", vi)), Instr::new("ghost", Some("U"), "{ U::Z }")],
                 };
                 tags.push(format!("v{}={}", vi, vattrs.first().map(|i| i.name.clone()).unwrap_or("plain".into())));
-                variants.push(Variant { attrs: vattrs, name: ["A", "B", "C"][vi].into(), shape: if named { Shape::Named } else { Shape::Tuple }, fields });
+                variants.push(Variant { attrs: vattrs, name: ["A", "B", "C"][vi].into(), shape: if nf == 0 { Shape::Unit } else if named { Shape::Named } else { Shape::Tuple }, fields });
             }
             let mut it = Item::new_enum("S", variants);
             it.attrs = vec![Instr::new("map", None, "T"), Instr::new("map", None, "U| _ => panic!()")];
@@ -287,14 +288,16 @@ impl Space for TraitRep {
         // a template is repeated onto later instructions of the SAME name only: `map_owned` / `from` overlap the two basic
         // names in the kinds they produce but are different instructions (seed C19-04 made a follower inherit from a
         // "wider" template)
-        let names = ["from_owned", "owned_into", "map_owned", "from"];
-        let mut slot: [Option<(Vec<String>, Params)>; 4] = [None, None, None, None];
+        // `try_from_owned` is the fallible twin of `from_owned`: its own template slot (seed C15-06), and every instruction keeps
+        // the error type it declares (seed C04-06)
+        let names = ["from_owned", "owned_into", "map_owned", "from", "try_from_owned"];
+        let mut slot: [Option<(Vec<String>, Params)>; 5] = [None, None, None, None, None];
         let mut with: Vec<Instr> = vec![];
         let mut without: Vec<Instr> = vec![];
         let mut tags = vec![format!("host={}", if self.enum_host { "enum" } else { "struct" })];
         let mut nontrivial = false;
         for k in 0..n {
-            let ni = ctx.choose(4);
+            let ni = ctx.choose(5);
             let name = names[ni];
             // own parameters: subset of vars + at most one terminal
             let mut own = Params::default();
@@ -316,7 +319,7 @@ impl Space for TraitRep {
                 _ => (format!("stop_repeat, repeat({})", TRAIT_CATS[ctx.choose(TRAIT_CATS.len())]), true, false, true),
             };
             tags.push(format!("i{}={}/{}", k, name, ["plain", "repeat", "skip", "stop", "stop+repeat"][ev]));
-            let cp = format!("V{}", k);
+            let cp = if name.starts_with("try_") { format!("V{}, E{}", k, k) } else { format!("V{}", k) };
             with.push(Instr::new(name, None, &format!("{}| {}", cp, own.render(&flags)).trim_end_matches("| ").to_string()));
             // M_rep (trait level)
             if stop {
